@@ -6,10 +6,10 @@ from . import kernel as KN
 
 PROPERTY = "C07"
 from . import c08 as C08   # noqa: E402
-CONTRACTS = list(KN.init_contracts_) + [C08.vpd_data]
+CONTRACTS = list(KN.init_contracts_) + [C08.vpd_data, KN.mean_std]
 # prior-sample columns in any equivalent units: the readers convert every requested column by the exact factor, on every dispatch branch
 from . import c12 as _C12   # noqa: E402
-CONTRACTS += _C12.read_batch_slice + _C12.read_batch_idx + _C12.read_batch
+CONTRACTS += _C12.read_batch_slice + _C12.read_batch_idx + _C12.read_batch + [_C12.header_units]
 CALLEES = dict(KN.CALLEES)
 LIB = dict(KN.LIB)
 HOOKS = KN.HOOKS
